@@ -60,6 +60,7 @@ def run(ctx):
         debug(cfg, crate, rep)
         if cfg != "K3":
             taint(cfg, crate, rep)
+            pubsrc(cfg, crate, rep)
         errs(cfg, crate, rep)
 
 
@@ -196,6 +197,33 @@ def taint(cfg, crate, rep):
 # on over the whole base64 body.  (InvalidData / NotUtf8 format positions and byte values only.)
 PEM_QUOTING_VARIANTS = ("InvalidHeader", "MismatchedTags")
 FOREIGN_ERRORS = ("KeyRejected", "PemError", "X509Error", "nom::Err", "asn1_rs::", "Unspecified")
+
+
+def pubsrc(cfg, crate, rep):
+    """The public-key values rcgen builds from caller-supplied encodings (SubjectPublicKeyInfo::from_der/from_pem, the
+    public key of an imported CSR) are printed by their derived Debug and copied into every certificate issued for them.
+    The bytes they retain are the subjectPublicKey BIT STRING the X.509 parser extracted from a SubjectPublicKeyInfo --
+    never the caller's input as handed in (a private-key document given by mistake would then be published)."""
+    from interp import roots
+    n = 0
+    for fn in ("key_pair::SubjectPublicKeyInfo::from_der", "csr::CertificateSigningRequestParams::from_der"):
+        if fn not in crate.bodies:
+            continue
+        rep.fn(fn)
+        I = Interp(crate)
+        I.run_fn(fn)
+        for sv, node, f, c in I.structs:
+            if sv.adt not in ("key_pair::SubjectPublicKeyInfo", "csr::PublicKey"):
+                continue
+            for k, x in sv.fields.items():
+                if k == "alg":
+                    continue        # an entry of the algorithm table
+                rs = roots(x)
+                n += 1
+                ok = "sel:.subject_public_key" in rs and any(r_.startswith("call:") and "x509_parser" in r_ and r_.endswith("::from_der") for r_ in rs)
+                rep.ob("C19.pubsrc", "%s|%s|%s.%s" % (cfg, fn, sv.adt.split("::")[-1], k), ok, "the bytes a public-key value retains are the subjectPublicKey the X.509 parser extracted, not the caller's input as given", found=sorted(r_ for r_ in rs if not r_.startswith("atom:"))[:8], sp=node.get("sp"))
+    if "key_pair::SubjectPublicKeyInfo::from_der" in crate.bodies:
+        rep.floor("C19.pubsrc", "public-key literals built from caller input (%s)" % cfg, n, 2)
 
 
 def errs(cfg, crate, rep):
